@@ -642,13 +642,27 @@ def sweep_alphabet(tier, seed):
     return checks
 
 
+def _survives_xlsx(texts):
+    """the texts that an xlsx file hands back unchanged (openpyxl write, openpyxl read; the library is not involved)"""
+    from openpyxl import Workbook, load_workbook
+    with lib.scratch() as d:
+        wb = Workbook()
+        ws = wb.active
+        for i, t in enumerate(texts):
+            ws.cell(row=i + 1, column=1, value=t).data_type = 's'
+        path = os.path.join(d, 'pre.xlsx')
+        wb.save(path)
+        back = [row[0].value for row in load_workbook(path).active.iter_rows()]
+    return [t for t, b in zip(texts, back) if t == b]
+
+
 def _payload_items(tier, seed):
     rng = random.Random(seed + 7)
     texts = BENIGN + HOSTILE
     if tier == 'thorough':
         texts = texts + ['w' * 1100 + "'\"\\{titles}", "'" * 255, '\\' * 255, '{' * 64 + '}' * 63] + _random_strings(rng, 200, 3, 10)
     sample = rng.sample(_alphabet_strings(3), 40 if tier == 'quick' else 300)
-    return texts, sample
+    return _survives_xlsx(texts), _survives_xlsx(sample)
 
 
 def sweep_payloads(tier, seed):
@@ -691,7 +705,7 @@ def sweep_payloads(tier, seed):
 # ------------------------------------------------------------------ API sequences, overrides, boundaries
 def _seq_texts(tier):
     t = ["O'Brien", 'say "hi"', 'a\\', '{titles}', 'a{{b}}c', 'a\nb', '%s', "<>O'Brien", '*', "a*'", '>=1', HOSTILE[0], HOSTILE[1], HOSTILE[2],
-         HOSTILE[9], HOSTILE[12], "<>" + HOSTILE[0], HOSTILE[0] + '*', 'x' * 60 + "'"]
+         HOSTILE[9], HOSTILE[12], "<>" + HOSTILE[0], HOSTILE[0] + '*', 'x' * 60 + "'", 'é\U0001F600яблоко', '=1+1', '=' + CALLN, '=A2']
     return t if tier == 'quick' else t + BENIGN + HOSTILE
 
 
@@ -699,6 +713,8 @@ def seq_parser_reuse(pair, tmpdir):
     """one Parser object: workbook A, then workbook B, then an entry point, then safety off, then A again"""
     from excel2pycl import Parser, Cell
     a, b = pair
+    if a.startswith('=') or b.startswith('='):
+        return 0, []
     fails, n = [], 0
     sa, sb = build('const', a), build('const', b)
     write_xlsx(sa, os.path.join(tmpdir, 'a.xlsx'))
